@@ -10,6 +10,7 @@ Bad(e) ==
   CASE e.op = "gen"  -> { c \in {"Library:GeneratorContract"} : e.out # << e.a >> /\ ~(e.a.orth = FALSE /\ e.out[1].m = e.a.m /\ e.out[1].n = e.a.n /\ e.out[1].r = e.a.r) }
     [] e.op = "mul"  -> { c \in {"Library:ProductDescriptor"} : e.out \notin OutMulW(e.a, e.b) }
     [] e.op = "rank" -> { c \in {"Library:RankValue"} : ~ValueOK("rank", e.a, e.value) }
+    [] e.op = "det"  -> { c \in {"Library:DetZeroIffSingular"} : ~ValueOK("det", e.a, e.value) }
     [] e.op \in Ops1 -> { c \in {"Library:" \o e.op \o ":Descriptor"} : e.out \notin Out1W(e.op, e.a) }
                         \cup { c \in {"Library:" \o e.op \o ":Value"} : ~ValueOK(e.op, e.a, e.value) }
                         \cup { c \in {"Library:OperandsUnchanged"} : ~e.unchanged }
